@@ -145,6 +145,7 @@ static void derive(uint64_t base, uint64_t index, PoolShape &sh, SimConfig &cfg,
 }
 
 int main(int argc, char **argv) {
+  disable_aslr(argv);
   setvbuf(stdout, nullptr, _IOLBF, 0);
   sim_set_fatal_cb(on_fatal);
   install_death_cb(&g_spec);
